@@ -876,6 +876,11 @@ func init() {
 			hlp := func(fn, max int) {
 				js = append(js, &Job{Module: "ros", Harness: "VC18Helpers", Params: P("fn", fn, "max", max), TimeoutS: 1200})
 			}
+			if tier == "thorough" {
+				// one message larger than the converter's initial 1 MiB record buffers
+				js = append(js, &Job{Module: "ros", Harness: "VC18Bag", Params: P("shape", 3, "chunked", 0, "mchunk", 0, "big", 1048577), TimeoutS: 3000})
+			}
+			js = append(js, &Job{Module: "ros", Harness: "VC18Bag", Params: P("shape", 3, "chunked", 1, "mchunk", 1, "big", 3000), TimeoutS: 900})
 			for shape := 0; shape <= 2; shape++ {
 				for c := 0; c <= 1; c++ {
 					bag(shape, c, 1-c)
@@ -902,7 +907,7 @@ func init() {
 			return js
 		},
 		bounds: map[string]any{
-			"quick":    map[string]any{"functional": "bags built by a harness-side encoder (from the bag v2.0 format): 1 connection + 1 message; 2 connections + 3 interleaved messages; 2 connections with a repeated connection record + 2 messages; records at top level or inside an uncompressed bag chunk followed by index-data and chunk-info records; MCAP output chunked or not. Symbolic: connection ids (32 bit, so > 65535 is included), topics, types, md5, definitions, caller id, secs/nsecs (32 bit each), payload bytes", "robustness": "Bag2MCAP on: up to 16 arbitrary bytes; the magic + up to 14 arbitrary bytes; the magic + one correctly framed record with 4-16 arbitrary header bytes and 0-8 data bytes; extractHeaderValue and headerToMap on up to 16 arbitrary bytes (length symbolic). No panic, no process exit", "oracle": "the real mcap lexer/parsers decode the output (their exactness is C01/C05's subject)"},
+			"quick":    map[string]any{"functional": "bags built by a harness-side encoder (from the bag v2.0 format): 1 connection + 1 message; 2 connections + 3 interleaved messages; 2 connections with a repeated connection record + 2 messages; records at top level or inside an uncompressed bag chunk followed by index-data and chunk-info records; MCAP output chunked or not. Symbolic: connection ids (32 bit, so > 65535 is included), topics (for connections with a caller id the topic field of the connection data is its own symbolic string, as for a remapped topic), types, md5, definitions, caller id, secs/nsecs (32 bit each), payload bytes", "robustness": "Bag2MCAP on: up to 16 arbitrary bytes; the magic + up to 14 arbitrary bytes; the magic + one correctly framed record with 4-16 arbitrary header bytes and 0-8 data bytes; extractHeaderValue and headerToMap on up to 16 arbitrary bytes (length symbolic). No panic, no process exit", "oracle": "the real mcap lexer/parsers decode the output (their exactness is C01/C05's subject)"},
 			"thorough": map[string]any{"robustness": "up to 24/18 arbitrary bytes; 20-byte headers; helpers up to 20 bytes"},
 		},
 		outside:     []string{"THE WHOLE ROS 2 db3 HALF of the property (database/sql + cgo SQLite + file-system schema lookup: behind FFI/OS, cannot be encoded) - not decided", "lz4 and bz2 bag chunks (third-party decoders; cut)", "memory requested for oversized header/data length fields (not part of C18's statement)", "bags with more than 2 connections / 3 messages"},
@@ -919,13 +924,15 @@ func init() {
 			js = append(js, &Job{Module: "ros1msg", Harness: "VC19ArrayType", Params: P("max", max), TimeoutS: 1800})
 			js = append(js, &Job{Module: "ros1msg", Harness: "VC19Resolve", Params: P("k", 11, "comments", 0, "twice", 0), TimeoutS: 1800})
 			js = append(js, &Job{Module: "ros1msg", Harness: "VC19Resolve", Params: P("k", 11, "comments", 1, "twice", 1), TimeoutS: 1800})
+			// two packages defining the same short type name (A means p/A in the root and q/A inside q/D): 8-entry sub-menu
+			js = append(js, &Job{Module: "ros1msg", Harness: "VC19Resolve", Params: P("k", 8, "comments", 0, "twice", 0, "pkgs", 1), TimeoutS: 1800})
 			return js
 		},
 		bounds: map[string]any{
-			"quick":    map[string]any{"array_suffix_kernel": "parseArrayType on every string of up to 6 bytes (bytes and length symbolic): no panic, and its result equals the specification (first-bracket positions, empty/decimal/other size)", "resolver": "ParseMessageDefinition on generated definitions: a root and two dependent types p/A, p/B (+ std_msgs/Header), each with one field whose type is a symbolic selector over an 11-entry menu (primitive, unqualified/qualified nested, Header, variable and fixed arrays of primitives and records, a missing type) case-split by the solver: 1331 definitions incl. every self- and mutual reference; with and without comment/constant/blank lines (comments containing '=' and '#'), and with the root's field type used twice (second field separated by space+tab). Expected tree computed by an independent resolver; missing types and cycles must give an error; recursion beyond the unwinding bound (200 calls) is a violation", "regexp": "the field regexp is compiled and matched natively on the (concrete, per path) line text"},
+			"quick":    map[string]any{"array_suffix_kernel": "parseArrayType on every string of up to 6 bytes (bytes and length symbolic): no panic, and its result equals the specification (first-bracket positions, empty/decimal/other size)", "resolver": "ParseMessageDefinition on generated definitions: a root and two dependent types p/A, p/B (+ std_msgs/Header), each with one field whose type is a symbolic selector over an 11-entry menu (primitive, unqualified/qualified nested, Header, variable and fixed arrays of primitives and records, a missing type) case-split by the solver: 1331 definitions incl. every self- and mutual reference; with and without comment/constant/blank lines (comments containing '=' and '#'), and with the root's field type used twice (second field separated by space+tab). a third job adds a package q whose type D has a field of the unqualified type A (= q/A, different from p/A) and gives the root q/D fields before and after its selected field (512 definitions). Expected tree computed by an independent resolver; missing types and cycles must give an error; recursion beyond the unwinding bound (200 calls) is a violation", "regexp": "the field regexp is compiled and matched natively on the (concrete, per path) line text"},
 			"thorough": map[string]any{"array_suffix_kernel": "up to 8 bytes"},
 		},
-		outside:     []string{"definition TEXT is generated from selectors, not arbitrary bytes: regexp matching, strings.Split/TrimSpace over symbolic text are out of reach (rune loops over input-sized text fork on every byte)", "more than two dependent types, more than one field per type", "stack/time bounds on adversarial non-cyclic inputs (deep but finite nesting)"},
+		outside:     []string{"definition TEXT is generated from selectors, not arbitrary bytes: regexp matching, strings.Split/TrimSpace over symbolic text are out of reach (rune loops over input-sized text fork on every byte)", "more than four dependent types, more than one selected field per type", "stack/time bounds on adversarial non-cyclic inputs (deep but finite nesting)"},
 		assumptions: append([]string{"regexp.MustCompile/FindStringSubmatch are executed natively by the engine on concrete strings (Go's own regexp package is trusted)"}, commonAssumptions...),
 	}
 }
